@@ -29,9 +29,9 @@ def examples(tier):
     return 2500 if tier == "quick" else 60000
 
 
-def cell(cmd, state, state2, uid=1000, name="secret", name2="other", ustate="full"):
+def cell(cmd, state, state2, uid=1000, name="secret", name2="other", ustate="full", rootvol=False):
     return {"cmd": cmd, "state": state, "state2": state2, "uid": uid, "name": name, "name2": name2,
-            "ustate": ustate}
+            "ustate": ustate, "rootvol": rootvol}
 
 
 def grid(tier):
@@ -40,6 +40,8 @@ def grid(tier):
     # .Trash/$uid absent or half made: nothing may be CREATED behind an insecure .Trash either
     g += [cell(c, s, s2, ustate=u) for c in CMDS for s in gen.TOP_STATES
           for s2 in ("none", "nonsticky") for u in ("absent", "partial")]
+    # the volume under test is the ROOT volume ('/' + '.Trash'): its top directory ends with a slash
+    g += [cell(c, s, s2, rootvol=True) for c in CMDS for s in gen.TOP_STATES for s2 in ("none", "nonsticky")]
     return g
 
 
@@ -49,7 +51,8 @@ def strategy_(draw, tier):
                 draw(st.sampled_from(["none"] + gen.TOP_STATES)),
                 draw(st.sampled_from([1000, 0, 501, 65534])),
                 draw(gen.names(long_ok=False)), draw(gen.names(simple=True)),
-                draw(st.sampled_from(["full", "full", "absent", "partial"])))
+                draw(st.sampled_from(["full", "full", "absent", "partial"])),
+                draw(st.integers(0, 4)) == 0)
 
 
 def strategy(tier):
@@ -91,7 +94,7 @@ def populate(tw, vol, state, uid, name, ustate="full"):
                          "b": list(make_info(fsenc("w/" + name), "2020-05-05T05:05:05"))})
         tw.nodes.append({"p": ud + "/files/" + name, "t": "f", "c": "A-" + vol})
         a = dict(orig=vol + "/w/" + name, date="2020-05-05T05:05:05", dir=ud)
-    b = tw.add(vol + "/.Trash-%d" % uid, vol, vol + "/w/zz-b-" + name, "2020-06-06T06:06:06",
+    b = tw.add(vol + "/.Trash-%d" % uid, vol or "/", vol + "/w/zz-b-" + name, "2020-06-06T06:06:06",
                content="B-" + vol)
     return a, b
 
@@ -102,14 +105,15 @@ def run_case(case):
     vols = ["/vol"] + (["/vol2"] if case["state2"] != "none" else [])
     tw = gen.TrashWorld(vols, "/home/u", uid)
     us = case.get("ustate", "full")
-    a1, b1 = populate(tw, "/vol", case["state"], uid, case["name"], us)
+    V1 = "" if case.get("rootvol") else "/vol"     # ('' + '/.Trash' = the root volume's)
+    a1, b1 = populate(tw, V1, case["state"], uid, case["name"], us)
     a2 = b2 = None
     if case["state2"] != "none":
         a2, b2 = populate(tw, "/vol2", case["state2"], uid, case["name2"], us)
-    tw.nodes.append({"p": "/vol/w/new-file", "t": "f", "c": "to be trashed"})
+    tw.nodes.append({"p": V1 + "/w/new-file", "t": "f", "c": "to be trashed"})
     if case["state2"] != "none":
         tw.nodes.append({"p": "/vol2/w/pre-file", "t": "f", "c": "trashed first"})
-    spec = tw.spec(cwd="/vol/w")
+    spec = tw.spec(cwd=V1 + "/w")
     sandbox.build_world(spec)
     before = sandbox.snapshot()
     cmd = case["cmd"]
@@ -120,7 +124,7 @@ def run_case(case):
         # (with a second volume, a file there is trashed FIRST in the same invocation: verdicts
         # about one volume's .Trash must not be reused for another volume)
         pre = ["/vol2/w/pre-file"] if case["state2"] != "none" else []
-        results.append(runner.run(spec, "trash-put", pre + ["/vol/w/new-file"]))
+        results.append(runner.run(spec, "trash-put", pre + [V1 + "/w/new-file"]))
     elif cmd == "list":
         results.append(runner.run(spec, "trash-list", []))
     elif cmd == "empty":
@@ -143,7 +147,7 @@ def run_case(case):
     out.classes += ["cmd:" + cmd, "state:" + case["state"], "state2:" + case["state2"],
                     "exit:%d" % res.code, "uid_dir:" + us]
     check_untouched(out, case, before, after, tags, cmd)
-    for (vol, state, a, b) in (("/vol", case["state"], a1, b1), ("/vol2", case["state2"], a2, b2)):
+    for (vol, state, a, b) in ((V1, case["state"], a1, b1), ("/vol2", case["state2"], a2, b2)):
         if state == "none" or b is None:
             continue
         t = dict(cmd=cmd, state=state)
@@ -176,21 +180,25 @@ def run_case(case):
             if a is not None and state == "sticky" and any(
                     p.startswith(a["dir"] + "/files/") or p.startswith(a["dir"] + "/info/") for p in after):
                 out.fail("valid_not_purged", "%s did not purge valid %s/.Trash/%d" % (cmd, vol, uid), **t)
-        elif cmd == "put" and vol == "/vol":
+        elif cmd == "put" and vol == V1:
             want = (vol + "/.Trash/%d" % uid) if state == "sticky" else (vol + "/.Trash-%d" % uid)
-            got = [p for p in after if p not in before and "/files/" in p and p.startswith("/vol/")]
+            if V1 == "":
+                want = "/home/u/.local/share/Trash"     # (the home trash is on the root volume too)
+            got = [p for p in after if p not in before and "/files/" in p and
+                   (p.startswith("/vol/") if V1 else not p.startswith("/vol2/"))]
             if len(got) != 1 or not got[0].startswith(want + "/files/"):
                 out.fail("put_wrong_dir", "put used %s, expected %s (exit %d, stderr %r)" % (
                     got, want, res.code, res.err[-200:]), **t)
     if insecure and (a1 is not None or us != "full"):
-        out.key = [cmd, case["state"], case["state2"], uid, gen.name_class(case["name"]), us]
+        out.key = [cmd, case["state"], case["state2"], uid, gen.name_class(case["name"]), us,
+                   bool(case.get("rootvol"))]
         out.sample = dict(case, exit=res.code)
     return out
 
 
 def check_untouched(out, case, before, after, tags, what):
     uid = case["uid"]
-    for vol, state in (("/vol", case["state"]), ("/vol2", case["state2"])):
+    for vol, state in (("" if case.get("rootvol") else "/vol", case["state"]), ("/vol2", case["state2"])):
         if state in INSECURE:
             d = top_dir(vol, state)     # everything behind .Trash, the $uid directory included
             if subtree(after, d) != subtree(before, d):
